@@ -255,8 +255,15 @@ def _fallback_exprs():
         if isinstance(n, (ast.For, ast.While)):
             for m in ast.walk(n):
                 in_loop.add(id(m))
+    # the fallback variable is whatever NAME the loop of the fallback branch stores into every stage's 'stage-weight'
+    fb_name = None
+    for loop in ast.walk(ex.node):
+        if isinstance(loop, ast.For) and len(loop.body) == 1 and isinstance(loop.body[0], ast.Assign):
+            n = loop.body[0]
+            if isinstance(n.targets[0], ast.Subscript) and 'stage-weight' in ast.unparse(n.targets[0]) and isinstance(n.value, ast.Name):
+                fb_name = n.value.id
     for n in ast.walk(ex.node):
-        if isinstance(n, ast.Assign) and isinstance(n.targets[0], ast.Name) and n.targets[0].id == 'fallbackWeight':
+        if isinstance(n, ast.Assign) and isinstance(n.targets[0], ast.Name) and n.targets[0].id == fb_name:
             fb = n.value
     for n in ast.walk(ex.node):
         if isinstance(n, ast.Assign) and isinstance(n.targets[0], ast.Subscript) and id(n) not in in_loop \
@@ -264,7 +271,7 @@ def _fallback_exprs():
             last = n.value
     if fb is None or last is None:
         raise extract.AnchorLost("fallback weight expressions not found in inject_default_values")
-    return ex, fb, last
+    return ex, fb, last, fb_name
 
 
 class FallbackArithmetic(Lemma):
@@ -278,14 +285,14 @@ class FallbackArithmetic(Lemma):
     def obligations(self, c):
         from pyvc.interp import Interp, Env
         _, globs = extract.module_globals(InjectWeights.file)
-        ex, fb_e, last_e = _fallback_exprs()
+        ex, fb_e, last_e, fb_name = _fallback_exprs()
         n = c.int('num_stages')
         c.assume(n >= 1)
         it = Interp(c, globs)
         env = Env(globs=globs)
         env.vars['num_stages'] = n
         fb = it.eval(fb_e, env)
-        env.vars['fallbackWeight'] = fb
+        env.vars[fb_name] = fb
         last = it.eval(last_e, env)
         q = Sym(z3.ToReal(to_z3(n) * 0 + (1000 / to_z3(n))))     # floor(1000/n) for n >= 1 (z3 integer division)
         nm1 = binop('-', n, 1)
